@@ -90,6 +90,10 @@ def run(c, prog):
         for conds, evs, x, v in paths:
             fs = facts(conds)
             is_none = any(f[0] == "is" and f[2] == sym.NONE and contains(f[1], RD + "read_option_u32") for f in fs)
+            # the else branch of `if let Some(len) = read_option_u32(..)..? { .. } else { .. }`: not Some, of the Option
+            # inside the Ok (the `?` / map_err has dealt with the Err)
+            is_none = is_none or any(f[0] == "not" and isinstance(f[1], tuple) and f[1][0] == "is" and f[1][2] == sym.SOME and isinstance(f[1][1], tuple) and f[1][1][0] in ("try", "payload")
+                                     and contains(f[1][1], RD + "read_option_u32") for f in fs)
             is_err = any(f[0] == "is" and f[2] == sym.ERR and contains(f[1], RD + "read_option_u32") for f in fs)
             is_some = any(f[0] == "is" and f[2] == sym.SOME and contains(f[1], RD + "read_option_u32") for f in fs)
             rv = v if x == "return" else sym.resolve(val, conds)
